@@ -233,13 +233,53 @@ Proof.
   split; [exact m0_inv|]. split; [vm_compute; discriminate|]. vm_compute. repeat split.
 Qed.
 
-(* c._X = 5 (strict off): the series object of X itself is replaced - the model gives up (OtherError = outside the model) *)
+(* c._X = np.array([1., 2.]) (strict off, accepted): the series object of X itself is replaced by the caller's array - X then has 2
+   cells of dtype float on a span of 3 periods although it was created with 3 int cells: length AND dtype are lost.
+   (c._X = 5, something that is no array, is outside the model: OtherError) *)
 Theorem underscore_assignment_needs_scope_refuted :
-  exists s o, Inv s /\ ~ in_scope (kind s) o /\ snd (np_step o s) = Raise OtherError.
+  exists s o, Inv s /\ ~ in_scope (kind s) o /\ snd (np_step o s) = Ret tt /\ span (fst (np_step o s)) = span s /\
+    assoc "X" (vars s) = Some (mkVar DInt [3] [PInt 1; PInt 2; PInt 3]%Z) /\
+    assoc "X" (vars (fst (np_step o s))) = Some (mkVar DFloat [2] [PFlt (FHalf 2); PFlt (FHalf 4)]%Z) /\
+    ~ Inv (fst (np_step o s)).
 Proof.
-  exists w0, (SetAttr "_X" (OScalar (PInt 5)) None).
-  split; [exact w0_inv|]. split; [vm_compute; discriminate|]. vm_compute. reflexivity.
+  exists w0, (SetAttr "_X" (OArr [2] DFloat [PFlt (FHalf 2); PFlt (FHalf 4)]%Z) None).
+  split; [exact w0_inv|]. split; [vm_compute; discriminate|]. split; [vm_compute; reflexivity|]. split; [vm_compute; reflexivity|].
+  split; [vm_compute; reflexivity|]. split; [vm_compute; reflexivity|].
+  intros [[_ [_ HV]] _]. specialize (HV "X" (mkVar DFloat [2] [PFlt (FHalf 2); PFlt (FHalf 4)]%Z)). vm_compute in HV.
+  specialize (HV eq_refl). discriminate HV.
 Qed.
+
+(* a linker keeps `submodels` and `name` in the same __dict__, neither registered in _attributes: l.submodels = {} (strict off) is
+   accepted and `size` no longer counts the submodels (9 -> 3 for one variable on 3 periods and a submodel of 6 elements): the
+   "kind" the span theorem keeps and size = rows * periods + extra of the values theorem both fail;
+   l.name = 'A' (the id of a submodel: `size` then raises TypeError) is outside the model (OtherError) *)
+Definition l0 : res :=
+  np_init_model (CLinker 6) [2000; 2001; 2002]%Z false RFloat (OScalar (PFlt (FHalf 0))) ["G"] [].
+
+Example l0_inv : Inv (fst l0).
+Proof.
+  apply (inv_init_model_fst np_pycast np_arrcast np_infer np_astype_dt); [discriminate | vm_compute; reflexivity].
+Qed.
+
+Theorem submodels_assignment_needs_scope_refuted :
+  exists s o, Inv s /\ ~ in_scope (kind s) o /\ snd (np_step o s) = Ret tt /\
+    size_of s = 9 /\ size_of (fst (np_step o s)) = 3 /\ kind (fst (np_step o s)) <> kind s /\
+    snd (np_step (SetAttr "name" (OScalar (PStr "A")) None) s) = Raise OtherError /\
+    ~ in_scope (kind s) (SetAttr "name" (OScalar (PStr "A")) None).
+Proof.
+  exists (fst l0), (SetAttr "submodels" (OSeq KList []) None).
+  split; [exact l0_inv|]. split; [vm_compute; discriminate|]. vm_compute. repeat split; discriminate.
+Qed.
+
+(* ---- the repaired defect (fix cf99a8a): a sub-array dtype ('2f8') adds a dimension: refused, nothing changes *)
+Example subarray_dtype_rejected_np :
+  np_step (AddVariable "N" (OScalar (PInt 0)) (Some RSub)) w0 = (w0, Raise DimensionError) /\
+  np_step (AddVariable "N" (li [1; 2; 3]%Z) (Some RSub)) w0 = (w0, Raise DimensionError) /\
+  snd (np_init_model CModel [1; 2; 3]%Z false RSub (OScalar (PFlt (FHalf 0))) ["Y"] []) = Raise DimensionError /\
+  (let m := np_init_model CModel [1; 2; 3]%Z false RSub (OScalar (PFlt (FHalf 0))) [] [] in
+   snd m = Ret tt /\ np_step (AddVariable "N" (OScalar (PInt 0)) None) (fst m) = (fst m, Raise DimensionError) /\
+   snd (np_step (AddVariable "N" (OScalar (PInt 0)) (Some RFloat)) (fst m)) = Ret tt).
+Proof. vm_compute. repeat split. Qed.
 
 (* ---- the repaired defect (fix d82b358): add_variable refuses a name whose storage key is taken *)
 Example reserved_names_rejected :
